@@ -351,7 +351,7 @@ pub fn families() -> Vec<Box<dyn Family>> {
 
         family(
             "deep_nested_anchors",
-            "STACK DEPTH: Patience on inputs whose unique items nest linearly (c1 c2 c1 c3 c2 c4 c3 ... on both sides behind one differing first item, 3000..12000 levels), Myers on two unrelated sequences of 1500..2500 items and Myers / Patience on 20000..50000 separate small hunks; run with the stack of an ordinary thread in the small-stack stage (an unoptimised build): the call must return a valid script and not exhaust the stack",
+            "STACK DEPTH: Patience on inputs whose unique items nest linearly (c1 c2 c1 c3 c2 c4 c3 ... on both sides behind one differing first item, 3000..12000 levels), Myers / Patience on two unrelated sequences of 800..1500 items and on 2000..4000 separate small hunks; run with the stack of an ordinary thread in the small-stack stage (an unoptimised build): the call must return a valid script and not exhaust the stack",
             false,
             1,
             |cfg| if cfg.tiny { 1 } else { cfg.tier.pick(9, 27) },
@@ -375,12 +375,12 @@ pub fn families() -> Vec<Box<dyn Family>> {
                         (a, b, Algorithm::Patience)
                     }
                     1 => {
-                        let (n, m) = if cfg.tiny { (5, 6) } else { (rng.range(1500, 2500), rng.range(1500, 2500)) };
+                        let (n, m) = if cfg.tiny { (5, 6) } else { (rng.range(800, 1500), rng.range(800, 1500)) };
                         let (a, b) = gen::landmark_pair(&mut rng, n, m, 3, 0);
                         (a, b, if rng.chance(1, 2) { Algorithm::Myers } else { Algorithm::Patience })
                     }
                     _ => {
-                        let hunks = if cfg.tiny { 5 } else { rng.range(20_000, 50_000) };
+                        let hunks = if cfg.tiny { 5 } else { rng.range(2000, 4000) };
                         let (a, b, _) = gen::many_hunks_pair(hunks);
                         (a, b, if rng.chance(1, 2) { Algorithm::Myers } else { Algorithm::Patience })
                     }
